@@ -217,6 +217,21 @@ def check_state(st, params):
         r1 = np.abs((Y / dmax).T.dot(E)).max()
         if max(r0, r1) > t * K:
             v.append(("normal_equations", "regression residual not orthogonal to the design columns: %.3g, %.3g (tol %.3g)" % (r0, r1, t * K)))
+    if K < n + 1:
+        # growing phase with the optional full-rank completion (the solver's setting while growing): fitted twice in a row, so
+        # that the second fit starts from a non-zero Jacobian; the data must still be interpolated
+        m2 = copy.deepcopy(st["m"])
+        try:
+            ok2 = m2.interpolate_mini_models_svd(make_full_rank=True)[0] and m2.interpolate_mini_models_svd(make_full_rank=True)[0]
+        except Exception as e:  # noqa: BLE001
+            return v + [("fit_raises", "interpolate_mini_models_svd(make_full_rank=True) raised %s: %s" % (type(e).__name__, e))]
+        if ok2:
+            jsc = max(1.0, float(np.max(np.abs(m2.model_jac)))) * max(1.0, float(np.max(np.abs(m2.points[:K]))))
+            t2 = 1e3 * EPS * c * max(scale, jsc)
+            E2 = np.array([m2.fval_v[k, :] - m2.model_value(m2.xpt(k), d_based_at_xopt=False, with_const_term=True) for k in range(K)])
+            if np.max(np.abs(E2)) > t2:
+                v.append(("growing_interpolation_fullrank", "after the full-rank completion the model misses its data by %.3g at %d "
+                          "points (tol %.3g, cond %.3g)" % (float(np.max(np.abs(E2))), K, t2, c)))
     try:
         cs, gs = m.lagrange_gradient(k=None)
     except Exception as e:  # noqa: BLE001
